@@ -57,7 +57,30 @@ var c15URLs = []string{
 	"../cache2/x",
 	"http://crl.example/ca.crm",
 	".",
+	// 14..: spellings a URL library would call equivalent or nearly so; the cache keys on the string
+	"http://crl.example/ca.crl?x=2",
+	"http://crl.example/ca.crl?",
+	"http://crl.example/ca.crl#",
+	"http://crl.example/ca.crl#frag",
+	"HTTP://crl.example/ca.crl",
+	"http://CRL.example/ca.crl",
+	"http://crl.example:80/ca.crl",
+	"http://crl.example/./ca.crl",
+	"http://crl.example/%63a.crl",
+	"http://crl.example/pki/ca.crl",
+	"http://crl.example/pki%2Fca.crl",
+	"http://crl.example/pki%2fca.crl",
+	"http://crl.example//ca.crl",
+	"http://user@crl.example/ca.crl",
+	"http://crl.example/ca%3Bv=1.crl",
+	"http://crl.example/ca;v=1.crl",
+	"http://crl.example/ca.crl?x=1&y=2",
+	"http://crl.example/ca.crl?y=2&x=1",
 }
+
+// pairs of entries of c15URLs that differ only in what a normalising URL library would discard or rewrite
+var c15Near = [][2]int64{{0, 1}, {0, 2}, {0, 3}, {0, 4}, {3, 14}, {0, 15}, {0, 16}, {0, 17}, {16, 17}, {0, 18}, {0, 19}, {0, 20}, {0, 21}, {0, 22},
+	{23, 24}, {24, 25}, {0, 26}, {0, 27}, {28, 29}, {30, 31}, {3, 30}}
 
 var c15Offsets = []int64{1, 2, 60, 3600, -10, 315360000}
 var c15Deltas = []int64{-int64(time.Second), -1, 0, 1, int64(time.Second)}
@@ -70,8 +93,15 @@ func (c15) Gen(r *rand.Rand, tier string, idx int) *core.Plan {
 	for i := 0; i < n; i++ {
 		urls = append(urls, int64(perm[i]))
 	}
-	if r.IntN(3) == 0 {
-		urls[0], urls[1] = 0, int64(1+r.IntN(4)) // near-identical pair
+	if r.IntN(2) == 0 {
+		pair := c15Near[r.IntN(len(c15Near))] // near-identical pair
+		urls[0], urls[1] = pair[0], pair[1]
+		for i := 2; i < len(urls); i++ {
+			if urls[i] == pair[0] || urls[i] == pair[1] {
+				urls = append(urls[:i], urls[i+1:]...)
+				i--
+			}
+		}
 	}
 	u := func() int64 { return urls[r.IntN(len(urls))] }
 	val := int64(0)
